@@ -27,9 +27,43 @@ class Op:
     def apply(self, arr, I, ctx):
         raise NotImplementedError
 
+    def mono(self, arr, I, ctx):
+        """Term structure: array of sets of monomials (sorted tuples of opaque atoms; grid points are neutral)."""
+        raise NotImplementedError
+
+    def lin(self, arr, I, ctx):
+        """Exact affine semantics on an array of affine forms ({atom: q}); None where the operator's coefficients
+        depend on grid values or run-time scalars (then only the dependence structure is specified)."""
+        return None
+
+
+def _ladd(x, y, sgn=1):
+    out = dict(x)
+    for k, q in y.items():
+        out[k] = out.get(k, 0) + sgn * q
+    return out
+
+
+def _lscale(x, c):
+    return {k: q * c for k, q in x.items()}
+
+
+def _mmul(ms, atom):
+    return frozenset(tuple(sorted(m + (atom,))) for m in ms)
+
+
+def _mprod(xs, ys):
+    return frozenset(tuple(sorted(x + y)) for x in xs for y in ys)
+
 
 class Id(Op):
     def apply(self, arr, I, ctx):
+        return list(arr)
+
+    def mono(self, arr, I, ctx):
+        return list(arr)
+
+    def lin(self, arr, I, ctx):
         return list(arr)
 
 
@@ -51,6 +85,17 @@ class X(Op):
             out.append(frozenset(d))
         return out
 
+    def mono(self, arr, I, ctx):
+        n = self.n
+        out = []
+        for p in range(len(arr) + n):
+            m = set()
+            for i in range(len(arr)):
+                if 0 <= p - i <= n:
+                    m |= arr[i]
+            out.append(frozenset(m))
+        return out
+
 
 class Dn(Op):
     def __init__(self, n):
@@ -60,6 +105,19 @@ class Dn(Op):
         if self.n > len(arr) - 1:
             return [E]
         return [arr[i + self.n] for i in range(len(arr) - self.n)]
+
+    def mono(self, arr, I, ctx):
+        if self.n > len(arr) - 1:
+            return [frozenset()]
+        return [arr[i + self.n] for i in range(len(arr) - self.n)]
+
+    def lin(self, arr, I, ctx):
+        import math
+        from fractions import Fraction
+        n = self.n
+        if n > len(arr) - 1:
+            return [{}]
+        return [_lscale(arr[i + n], Fraction(math.factorial(i + n), math.factorial(i))) for i in range(len(arr) - n)]
 
 
 class Mul(Op):
@@ -71,8 +129,17 @@ class Mul(Op):
     def apply(self, arr, I, ctx):
         return self.a.apply(self.b.apply(arr, I, ctx), I, ctx)
 
+    def mono(self, arr, I, ctx):
+        return self.a.mono(self.b.mono(arr, I, ctx), I, ctx)
+
+    def lin(self, arr, I, ctx):
+        inner = self.b.lin(arr, I, ctx)
+        return None if inner is None else self.a.lin(inner, I, ctx)
+
 
 class Add(Op):
+    sign = 1
+
     def __init__(self, a, b):
         self.a, self.b = a, b
 
@@ -80,23 +147,51 @@ class Add(Op):
         x, y = self.a.apply(arr, I, ctx), self.b.apply(arr, I, ctx)
         return [(x[p] if p < len(x) else E) | (y[p] if p < len(y) else E) for p in range(max(len(x), len(y)))]
 
+    def mono(self, arr, I, ctx):
+        x, y = self.a.mono(arr, I, ctx), self.b.mono(arr, I, ctx)
+        return [(x[p] if p < len(x) else frozenset()) | (y[p] if p < len(y) else frozenset())
+                for p in range(max(len(x), len(y)))]
 
-Sub = Add  # same dependence structure
+    def lin(self, arr, I, ctx):
+        x, y = self.a.lin(arr, I, ctx), self.b.lin(arr, I, ctx)
+        if x is None or y is None:
+            return None
+        return [_ladd(x[p] if p < len(x) else {}, y[p] if p < len(y) else {}, self.sign)
+                for p in range(max(len(x), len(y)))]
+
+
+class Sub(Add):  # same dependence structure, opposite sign of the second term
+    sign = -1
 
 
 class Scal(Op):
     """multiplication by a scalar: atom ('k',) for run-time scalars, no dependence for literals"""
 
-    def __init__(self, a, atom=True):
-        self.a, self.atom = a, atom
+    def __init__(self, a, atom=True, value=None):
+        self.a, self.atom, self.value = a, atom, value
+
+    def _atom(self):
+        return ("k",) if self.atom is True else self.atom
 
     def apply(self, arr, I, ctx):
-        k = frozenset([("k",)]) if self.atom else E
+        k = frozenset([self._atom()]) if self.atom else E
         return [d | k for d in self.a.apply(arr, I, ctx)]
 
+    def mono(self, arr, I, ctx):
+        inner = self.a.mono(arr, I, ctx)
+        if not self.atom:
+            return inner
+        return [_mmul(m, self._atom()) for m in inner]
 
-def Const(atom=True):
-    return Scal(Id(), atom)
+    def lin(self, arr, I, ctx):
+        if self.atom or self.value is None:
+            return None
+        inner = self.a.lin(arr, I, ctx)
+        return None if inner is None else [_lscale(x, self.value) for x in inner]
+
+
+def Const(atom=True, value=None):
+    return Scal(Id(), atom, value)
 
 
 class Fac(Op):
@@ -118,7 +213,27 @@ class Fac(Op):
             out.append(frozenset(d))
         return out
 
+    def mono(self, arr, I, ctx):
+        name, order, (s, e) = ctx["v"]
+        size = len(arr) + order
+        if not (s <= I and I + 1 < e):
+            return [frozenset()] * size
+        out = []
+        for p in range(size):
+            m = set()
+            for i in range(len(arr)):
+                j = p - i
+                if 0 <= j <= order:
+                    m |= _mmul(arr[i], ("c", name, I, j))
+            out.append(frozenset(m))
+        return out
 
+
+def _in_mono(name, I, order):
+    return [frozenset([(("c", name, I, j),)]) for j in range(order + 1)]
+
+
+from fractions import Fraction as _Fr
 OP_CASES = {
     # name: (spec, needs scalar c, factor order or None, properties it serves)
     "op_id": (Id(), False, None),
@@ -146,11 +261,11 @@ OP_CASES = {
     "op_cplusx": (Add(Const(), X(1)), True, None),
     "op_xminusc": (Sub(X(1), Const()), True, None),
     "op_cminusx": (Sub(Const(), X(1)), True, None),
-    "op_neg": (Scal(X(1), False), False, None),
-    "op_int2d": (Scal(Dn(1), False), False, None),
-    "op_ddiv2": (Scal(Dn(1), False), False, None),
-    "op_dplus1": (Add(Dn(1), Const(False)), False, None),
-    "op_nested": (Sub(Scal(Scal(Add(Sub(Mul(X(2), Dn(1)), Dn(3)), Const()))), Scal(X(1), False)), True, None),
+    "op_neg": (Scal(X(1), False, _Fr(-1)), False, None),
+    "op_int2d": (Scal(Dn(1), False, _Fr(2)), False, None),
+    "op_ddiv2": (Scal(Dn(1), False, _Fr(1, 2)), False, None),
+    "op_dplus1": (Add(Dn(1), Const(False, _Fr(1))), False, None),
+    "op_nested": (Sub(Scal(Scal(Add(Sub(Mul(X(2), Dn(1)), Dn(3)), Const()))), Scal(X(1), False, _Fr(2))), True, None),
     "op_fac": (Fac(), False, 1),
     "op_fac0": (Fac(), False, 0),
     "op_facd": (Mul(Fac(), Dn(1)), False, 1),
@@ -214,7 +329,7 @@ def operator_suite(chk, w, rule, nmax, orders=(0, 1, 2, 3), cases=None, ns=None,
     w.I.int_arith_scopes = ("bspline::internal::",)  # faculty / binomial helpers: constant propagation
     names = sorted(cases or OP_CASES)
     for n in _ns(2, nmax, ns):
-        grid = w.mk_grid(w.grid_values(n)).v
+        grid = w.need_grid(w.grid_values(n))
         for A in orders:
             for name in names:
                 spec, need_c, vorder = OP_CASES[name]
@@ -230,7 +345,7 @@ def operator_suite(chk, w, rule, nmax, orders=(0, 1, 2, 3), cases=None, ns=None,
                             args.append(box(v))
                             ctx["v"] = ("v", vorder, wv)
                         if need_c:
-                            args.append(box(Sc(None, frozenset([("k",)]))))
+                            args.append(box(Sc.atom(("k",))))
                         sa = snap(a)
                         o = w.call(f, None, args)
                         ina = lambda I: wa[0] <= I and I + 1 < wa[1]
@@ -242,6 +357,20 @@ def operator_suite(chk, w, rule, nmax, orders=(0, 1, 2, 3), cases=None, ns=None,
                             arr = spec.apply(_in_arr("a", I, A), I, ctx)
                             return arr[p] if p < len(arr) else E
 
+                        def want_mono(I, p):
+                            if not ina(I):
+                                return frozenset()
+                            arr = spec.mono(_in_mono("a", I, A), I, ctx)
+                            return arr[p] if p < len(arr) else frozenset()
+
+                        def want_lin(I, p):
+                            if not ina(I):
+                                return {}
+                            arr = spec.lin([{("c", "a", I, j): _Fr(1)} for j in range(A + 1)], I, ctx)
+                            if arr is None:
+                                return None
+                            return arr[p] if p < len(arr) else {}
+
                         ok, why = False, repr(o)
                         if o.kind == "val" and isinstance(val(o.v), Obj):
                             r = val(o.v)
@@ -251,7 +380,7 @@ def operator_suite(chk, w, rule, nmax, orders=(0, 1, 2, 3), cases=None, ns=None,
                                 if not same_window(view[0], wa) and (wa[1] - wa[0] >= 2):
                                     ok, why = False, "result support %s differs from the operand's %s" % (view[0], wa)
                                 else:
-                                    ok, why = _expect_coeffs_exact(view, n, want, out_order, ina)
+                                    ok, why = _expect_coeffs_exact(view, n, want, out_order, ina, want_lin, want_mono)
                         if ok and snap(a) != sa:
                             ok, why = False, "operand was modified"
                         case = dict(case=name, order=A, n=n, a=wa)
@@ -263,7 +392,12 @@ def operator_suite(chk, w, rule, nmax, orders=(0, 1, 2, 3), cases=None, ns=None,
     return cs.flush()
 
 
-def _expect_coeffs_exact(view, n, want, out_order, ina):
+def _fmt_mono(ms):
+    return "{" + ", ".join("*".join("%s%s" % (a[1] if len(a) > 1 else a[0], list(a[2:])) for a in m) or "1"
+                           for m in sorted(ms)[:6]) + ("...}" if len(ms) > 6 else "}")
+
+
+def _expect_coeffs_exact(view, n, want, out_order, ina, want_lin=None, want_mono=None):
     (s, e), table, ncoef, _ = view
     for I in range(0, n - 1):
         arr = table.get(I)
@@ -283,6 +417,18 @@ def _expect_coeffs_exact(view, n, want, out_order, ina):
                     p, I, sorted(x.deps)[:6], sorted(wd)[:6])
             if not wd and x.v != 0:
                 return False, "coefficient of x^%d on interval %d should be exactly zero" % (p, I)
+            if want_mono is not None and x.mono is not None:
+                wm = want_mono(I, p)
+                if x.mono != wm:
+                    return False, "coefficient of x^%d on interval %d is a sum of the products %s, specified %s" % (
+                        p, I, _fmt_mono(x.mono), _fmt_mono(wm))
+            if want_lin is not None:
+                wl = want_lin(I, p)
+                got = x.form()
+                if wl is not None and got is not None and got != {k: q for k, q in wl.items() if q != 0}:
+                    from .r_reg_spl import _fmt_lin
+                    return False, "coefficient of x^%d on interval %d is the combination %s, specified %s" % (
+                        p, I, _fmt_lin(got), _fmt_lin(wl))
     return True, ""
 
 
@@ -290,6 +436,8 @@ def _expect_coeffs_exact(view, n, want, out_order, ina):
 # forms
 # ------------------------------------------------------------------------------------------------
 BF_CASES = {
+    # two operators of the SAME C++ type with different state (run-time scalars k / k2)
+    "bf_aff": (Add(Dn(1), Const(("k",))), Add(Dn(1), Const(("k2",))), None),
     "bf_id": (Id(), Id(), None),
     "bf_x1d1": (X(1), Dn(1), None),
     "bf_d1": (Id(), Dn(1), None),
@@ -305,10 +453,14 @@ LF_CASES = {
 }
 
 
-def _scalar_ok(o, want_deps):
+def _scalar_ok(o, want_deps, want_mono=None):
     if o.kind != "val" or not isinstance(val(o.v), Sc):
         return False, repr(o)
     x = val(o.v)
+    if want_mono is not None and x.mono is not None and x.deps == want_deps and x.mono != want_mono:
+        extra = sorted(x.mono - want_mono)[:3]
+        miss = sorted(want_mono - x.mono)[:3]
+        return False, "wrong products of inputs: unexpected %s, missing %s" % (_fmt_mono(extra), _fmt_mono(miss))
     if x.deps != want_deps:
         extra = sorted(x.deps - want_deps)[:5]
         miss = sorted(want_deps - x.deps)[:5]
@@ -323,8 +475,8 @@ def bilinear_suite(chk, w, rule, nmax, order_pairs=((1, 1), (2, 1), (0, 3), (2, 
     w.I.allow_const_scaling = True
     w.I.int_arith_scopes = ("bspline::internal::",)  # faculty / binomial helpers: constant propagation  # kernel loop counters are bounded by template constants
     for n in _ns(2, nmax, ns):
-        grid = w.mk_grid(w.grid_values(n)).v
-        grid2 = w.mk_grid(w.grid_values(n)).v
+        grid = w.need_grid(w.grid_values(n))
+        grid2 = w.need_grid(w.grid_values(n))
         for (A, B) in order_pairs:
             for name, (o1, o2, vorder) in sorted(BF_CASES.items()):
                 f = _case_fn(w, name, A, lambda f: ("Spline<%s, %d>" % (w.T, B)) in f.decl["params"][1]["type"])
@@ -340,19 +492,25 @@ def bilinear_suite(chk, w, rule, nmax, order_pairs=((1, 1), (2, 1), (0, 3), (2, 
                             if vorder is not None:
                                 args.append(box(w.spline_on("v", vorder, grid, *wv)))
                                 ctx["v"] = ("v", vorder, wv)
+                            if name == "bf_aff":
+                                args += [box(Sc.atom(("k",))), box(Sc.atom(("k2",)))]
                             sa, sb = snap(a), snap(b)
                             o = w.call(f, None, args)
                             want = set()
+                            wantm = set()
                             for I in range(n - 1):
                                 if wa[0] <= I and I + 1 < wa[1] and wb[0] <= I and I + 1 < wb[1]:
                                     ta = o1.apply(_in_arr("a", I, A), I, ctx)
                                     tb = o2.apply(_in_arr("b", I, B), I, ctx)
+                                    ma = o1.mono(_in_mono("a", I, A), I, ctx)
+                                    mb = o2.mono(_in_mono("b", I, B), I, ctx)
                                     want |= G(I)
                                     for i in range(len(ta)):
                                         for j in range(len(tb)):
                                             if (i + j) % 2 == 0:
                                                 want |= ta[i] | tb[j]
-                            ok, why = _scalar_ok(o, frozenset(want))
+                                                wantm |= _mprod(ma[i], mb[j])
+                            ok, why = _scalar_ok(o, frozenset(want), frozenset(wantm))
                             if ok and (snap(a) != sa or snap(b) != sb):
                                 ok, why = False, "an operand was modified"
                             case = dict(case=name, orders=(A, B), n=n, a=wa, b=wb)
@@ -369,7 +527,7 @@ def linear_suite(chk, w, rule, nmax, orders=(0, 1, 2, 3), ns=None, fixed=True):
     w.I.allow_const_scaling = True
     w.I.int_arith_scopes = ("bspline::internal::",)  # faculty / binomial helpers: constant propagation  # kernel loop counters are bounded by template constants
     for n in _ns(2, nmax, ns):
-        grid = w.mk_grid(w.grid_values(n)).v
+        grid = w.need_grid(w.grid_values(n))
         for A in orders:
             for name, (op, vorder) in sorted(LF_CASES.items()):
                 f = _case_fn(w, name, A)
@@ -385,13 +543,16 @@ def linear_suite(chk, w, rule, nmax, orders=(0, 1, 2, 3), ns=None, fixed=True):
                         sa = snap(a)
                         o = w.call(f, None, args)
                         want = set()
+                        wantm = set()
                         for I in range(n - 1):
                             if wa[0] <= I and I + 1 < wa[1]:
                                 ta = op.apply(_in_arr("a", I, A), I, ctx)
+                                ma = op.mono(_in_mono("a", I, A), I, ctx)
                                 want |= G(I)
                                 for i in range(0, len(ta), 2):
                                     want |= ta[i]
-                        ok, why = _scalar_ok(o, frozenset(want))
+                                    wantm |= ma[i]
+                        ok, why = _scalar_ok(o, frozenset(want), frozenset(wantm))
                         if ok and snap(a) != sa:
                             ok, why = False, "the operand was modified"
                         case = dict(case=name, order=A, n=n, a=wa)
@@ -408,7 +569,7 @@ def quadrature_suite(chk, w, rule, nmax, order_pairs=((1, 1), (2, 1), (0, 3), (2
     w.I.allow_const_scaling = True
     w.I.int_arith_scopes = ("bspline::internal::",)  # faculty / binomial helpers: constant propagation  # kernel loop counters are bounded by template constants
     for n in _ns(2, nmax, ns):
-        grid = w.mk_grid(w.grid_values(n)).v
+        grid = w.need_grid(w.grid_values(n))
         for (A, B) in order_pairs:
             for name in ("quad2", "quad5"):
                 f = _case_fn(w, name, A, lambda f: ("Spline<%s, %d>" % (w.T, B)) in f.decl["params"][1]["type"])
@@ -419,12 +580,15 @@ def quadrature_suite(chk, w, rule, nmax, order_pairs=((1, 1), (2, 1), (0, 3), (2
                         sa, sb = snap(a), snap(b)
                         o = w.call(f, None, [box(a), box(b)])
                         want = set()
+                        wantm = set()
                         for I in range(n - 1):
                             if wa[0] <= I and I + 1 < wa[1] and wb[0] <= I and I + 1 < wb[1]:
                                 want |= G(I)
                                 want |= {("c", "a", I, j) for j in range(A + 1)}
                                 want |= {("c", "b", I, j) for j in range(B + 1)}
-                        ok, why = _scalar_ok(o, frozenset(want))
+                                wantm |= {(("c", "a", I, i), ("c", "b", I, j)) for i in range(A + 1)
+                                          for j in range(B + 1)}
+                        ok, why = _scalar_ok(o, frozenset(want), frozenset(wantm))
                         if ok and (snap(a) != sa or snap(b) != sb):
                             ok, why = False, "an operand was modified"
                         cs.expect(blame(w, name, f), "%s: the quadrature extends over exactly the common intervals, with both splines' "
